@@ -27,12 +27,61 @@ RAW = {"malloc", "calloc", "realloc", "free", "strdup", "strndup"}
 EXC_TABLE = os.path.join(VERIF, "tables", "c15_raw_alloc_exceptions.json")
 
 
+GATE_HELPERS = {}       # predicate helpers that answer the runtime gate: name -> (level, polarity); filled by find_gate_helpers()
+
+
+def find_gate_helpers(prog, unit):
+    """unit-local predicates without parameters whose every path tests the runtime level once and returns a constant that is
+    non-zero exactly on one side of that test (static int tracking(void) { if (level < MEM) return 0; return 1; })"""
+    GATE_HELPERS.clear()
+    for g in unit.functions.values():
+        if g.body is None or g.cfg is None or g.params:
+            continue
+        try:
+            ps = paths.enumerate_paths(g, noreturn={"libast_fatal_error"})
+        except Exception:
+            continue
+        verdict = {}
+        ok = bool(ps)
+        lvl = None
+        for p in ps:
+            gt = None
+            ret = None
+            for ev in p:
+                if ev[0] == "cond":
+                    gp = gate_pol(ev[1])
+                    if gp is None or gt is not None:
+                        ok = False
+                        break
+                    lvl = gp[0] if lvl is None else lvl
+                    if gp[0] != lvl:
+                        ok = False
+                        break
+                    gt = ev[2] if gp[1] else (not ev[2])
+                elif ev[0] == "call":
+                    ok = False
+                    break
+                elif ev[0] == "ret":
+                    ret = ev[1]
+            if not ok or gt is None or ret is None or ret.get("val") is None or X.const_val(ret["val"]) is None:
+                ok = False
+                break
+            tv = bool(X.const_val(ret["val"]))
+            if verdict.setdefault(gt, tv) != tv:
+                ok = False
+                break
+        if ok and set(verdict) == {True, False} and verdict[True] != verdict[False]:
+            GATE_HELPERS[g.name] = (lvl, verdict[True])
+
+
 def gate_pol(cond):
     """(level, polarity) if cond is - up to negation, parentheses and `? 1 : 0` wrappers - the runtime gate
     libast_debug_level >= <const>;  polarity False means the condition is the negated gate"""
     c = X.strip(cond)
     if c is None:
         return None
+    if c.get("k") == "call" and X.callee_name(c) in GATE_HELPERS:
+        return GATE_HELPERS[X.callee_name(c)]
     if c.get("k") == "un" and c.get("op") == "!":
         g = gate_pol(c["ch"][0])
         return (g[0], not g[1]) if g else None
@@ -340,6 +389,8 @@ def run(tier="quick", mktable=False):
         chk.rule(rid, txt)
     prog = facts.extract()
     u = prog.units.get("mem.c")
+    if u is not None:
+        find_gate_helpers(prog, u)
     if u is None:
         raise AnalysisBroken("mem.c not analysed")
     # the memory-debugging level as the header defines it
